@@ -104,6 +104,21 @@ func vfExecMore3(f []string, op string) (string, bool) {
 		m, err := DetectFile(name)
 		d := Detect(data)
 		return fmt.Sprintf("%s => %s %d %s %s", op, vfErrClass(err), 0, vfRes(m), vfRes(d)), true
+	case "procfile": // procfile lim pathhex : a file whose stat size says nothing about its content (procfs: size 0)
+		lim64, _ := strconv.ParseUint(f[1], 10, 32)
+		path := string(vfUnhex(f[2]))
+		data, rerr := os.ReadFile(path)
+		if rerr != nil || len(data) == 0 {
+			return op + " => UNREADABLE", true
+		}
+		SetLimit(uint32(lim64))
+		m, err := DetectFile(path)
+		again, _ := os.ReadFile(path)
+		if !bytes.Equal(data, again) {
+			return op + " => UNSTABLE", true
+		}
+		d := Detect(data)
+		return fmt.Sprintf("%s => %s %d %s %s", op, vfErrClass(err), 0, vfRes(m), vfRes(d)), true
 	case "filebad": // filebad missing|dir
 		SetLimit(3072)
 		var m *MIME
@@ -321,4 +336,9 @@ func (g *vfGen) genC05() {
 	}
 	g.emit("filebad missing")
 	g.emit("filebad dir")
+	for _, pth := range []string{"/proc/self/cmdline", "/proc/version", "/proc/self/environ", "/proc/self/auxv", "/proc/cpuinfo", "/proc/filesystems", "/sys/kernel/mm/transparent_hugepage/enabled"} {
+		for _, lim := range []int{3072, 0, 64, 5} {
+			g.emit(vfOp("procfile", lim, []byte(pth)))
+		}
+	}
 }
